@@ -43,6 +43,16 @@ def run(shard, rec):
         k = bisect.bisect_right(monic_all, ai)
         return monic_all[k] if k < len(monic_all) else None
 
+    # the same coefficient lists are first put to the irreducibility test over OTHER primes (whatever is remembered must be remembered per prime)
+    for p2 in (3, 5, 7, 11, 13):
+        if p2 == p:
+            continue
+        P2 = gfpx.GFpX(p2)
+        for ai in range(0, N, 1 if N <= 4000 else 3):
+            la2 = R.pfromint(ai, p)
+            if la2 and max(la2) < p2 and len(la2) >= 3:
+                P2.is_irreducible(P2(la2))
+                rec.count('other_prime_warmups')
     for ai in range(N):
         la = R.pfromint(ai, p)
         case = [p, str(ai)]
